@@ -801,12 +801,12 @@ PPL::Grid::is_universe() const {
       return false;
     }
   }
-#ifndef NDEBUG
+  // All the lines satisfy the congruences: the grid is the universe
+  // unless it is empty because of an inconsistent constant congruence
+  // (which is satisfied by any line but by no point).
   Linear_Expression expr;
   expr.set_space_dimension(space_dim);
-  PPL_ASSERT(con_sys.satisfies_all_congruences(grid_point(expr)));
-#endif
-  return true;
+  return con_sys.satisfies_all_congruences(grid_point(expr));
 }
 
 bool
